@@ -221,8 +221,17 @@ Load(w) == /\ phase = "created" /\ ViewOK(cfg, w)
            /\ lk' = w /\ phase' = "loaded" /\ cur' = Pristine /\ verdict' = "none" /\ UNCHANGED <<cfg, obs>>
 
 \* the pristine artifact passes full hash and signature verification
-Verify == /\ phase = "loaded" /\ cur.state = "pristine"
+Verify == /\ phase = "loaded" /\ cur.state = "pristine" /\ cfg.flaw = "none"
           /\ phase' = "verified" /\ verdict' = "intact" /\ UNCHANGED <<cfg, lk, cur, obs>>
+\* an artifact written by a dishonest or broken creator - internally consistent hashes, but (Flaws) a public share
+\* off the validator's polynomial, signatures by the wrong key, an aggregate signature lacking a share - is refused
+Flaws == {"extrashare", "firstshare", "aggsig", "opsig", "enrsig", "creatorsig"}
+FlawApplies(f, v, art) == CASE f \in {"extrashare", "firstshare", "aggsig"} -> art = "lock"
+                            [] f \in {"opsig", "enrsig"} -> v >= 3
+                            [] f = "creatorsig" -> v >= 4
+                            [] OTHER -> FALSE
+VerifyFlawed == /\ phase = "loaded" /\ cur.state = "pristine" /\ cfg.flaw # "none"
+                /\ verdict' = "detected" /\ UNCHANGED <<cfg, phase, lk, cur, obs>>
 
 Idle == phase = "verified" /\ cur.state \in {"pristine", "done"}
 \* the other artifacts are looked at next to the pristine lock (an altered copy is discarded)
@@ -295,5 +304,7 @@ CombineRule == obs.kind = "combine" =>
 TypeOK == /\ phase \in {"new", "created", "loaded", "verified"}
           /\ verdict \in {"none", "intact", "detected"}
           /\ cur.state \in {"pristine", "altered", "loaded", "done"}
-Safety == TamperEvident /\ ValuePreserved /\ ShareConsistency /\ CombineRule /\ TypeOK
+\* a flawed artifact is never accepted (and so never used)
+FlawRejected == cfg.flaw # "none" => phase # "verified"
+Safety == TamperEvident /\ ValuePreserved /\ ShareConsistency /\ CombineRule /\ FlawRejected /\ TypeOK
 ====
